@@ -81,7 +81,9 @@ class BufferTankingMixin(BaseItemMixin):
             TankingLayersTotal helper container instance.
         """
         if dmg_profile is None:
-            dmg_profile = self._fit.default_incoming_dmg
+            fit = self._fit
+            if fit is not None:
+                dmg_profile = fit.default_incoming_dmg
         # If damage profile is not specified anywhere, return Nones
         if dmg_profile is None:
             return ItemHP(0, 0, 0)
